@@ -47,7 +47,7 @@ class SourceHandler(SourceHandlerMixin, NextTokenBaseHandler):
         super().__init__()
 
     def _indicate(self, token: Token) -> bool:
-        if token.normalized in ("UNION", "UNION ALL"):
+        if re.fullmatch(r"UNION(\s+ALL)?", token.normalized):
             self.union_barriers.append((len(self.columns), len(self.tables)))
 
         if self.column_flag is True and bool(token.normalized == "DISTINCT"):
